@@ -41,8 +41,10 @@ Proof. exact step_inv. Qed.
 Print Assumptions C08_step_sound.
 
 (* every tensor flagged isometric (left_inds) is isometric: over ALL histories
-   of the WHOLE alphabet, including the operations that break the record *)
-Theorem C08_flag_sound : forall ops st st', FlagsOK (sites st) -> run ops st = Some st' ->
+   of the WHOLE alphabet (the record-breaking rescalings included), except that
+   Tensor.normalize_ must not be applied to a flagged tensor (`all_flag_safe`;
+   that case is refuted below and is an open finding) *)
+Theorem C08_flag_sound : forall ops st st', FlagsOK (sites st) -> all_flag_safe ops st -> run ops st = Some st' ->
   forall k, (fl (get (sites st') k) = FL -> gL (get (sites st') k) = true)
          /\ (fl (get (sites st') k) = FR -> gR (get (sites st') k) = true).
 Proof. exact run_flags. Qed.
@@ -88,10 +90,26 @@ Theorem C08_domain_is_whole_alphabet : forall st o,
      record true only for sites inside the recorded range; a fresh record is anything
      but a pair *)
   | OScale ss => match rec st with RSome a b => Forall (fun s => a <= s /\ s <= b) ss | _ => True end
+  | ONormalizeSite i => fl (get (sites st) i) = FNone
+                        /\ match rec st with RSome a b => a <= i /\ i <= b | _ => True end
   | OSetRecord r => match r with RSome _ _ => False | _ => True end
   end.
 Proof. intros st o. destruct o; simpl; tauto. Qed.
 Print Assumptions C08_domain_is_whole_alphabet.
+
+(* ---- refuted on the current code (open finding scale:site_normalize:false_flag):
+   Tensor.normalize_ rescales a tensor and passes its left_inds flag on.  `all_flag_safe`
+   in C08_flag_sound excludes exactly this: normalize_ of a FLAGGED site tensor. *)
+Theorem C08_tensor_normalize_flag_refuted :
+  exists st', Inv w_loose /\ step (ONormalizeSite 1) (0, 0) w_loose = Some st'
+              /\ record_ok st' = true /\ ~ FlagsOK (sites st').
+Proof. exact tensor_normalize_refuted. Qed.
+Print Assumptions C08_tensor_normalize_flag_refuted.
+
+Theorem C08_flag_safe_is_only_normalize : forall st o,
+  flag_safe st o <-> match o with ONormalizeSite i => fl (get (sites st) i) = FNone | _ => True end.
+Proof. intros. reflexivity. Qed.
+Print Assumptions C08_flag_safe_is_only_normalize.
 
 (* ---- HISTORIC (pre-fix variants, C08/Historic.v; none of this models the
    current code).  Before the fix commits 4980426d, f9934bdc, eb8c2f1e,
